@@ -189,7 +189,7 @@ theorem chain_eq_product_vec (c₀ c₁ : Core) (h₀ : c₀.WF) (h₁ : c₁.WF
   cases projVec c₁ x with
   | error e => rfl
   | ok z =>
-    show Slicer.apply { core := c₀, pending := [] } (.vec z) = _
+    show Slicer.apply { core := c₀, pending := [] } (.vec z) = (do let u ← projVec c₀ z; pure (Val.vec u))
     rw [e₀]
     cases projVec c₀ z <;> rfl
 
@@ -247,10 +247,11 @@ theorem transpose_good (S T : Slicer) (hS : S.Good) (h : S.transpose = .ok T) : 
       · exact hS.1.transpose
       · have : Step.Good (.proj c0) := hS.2 _ (by rw [hp]; exact List.mem_map.mpr ⟨c0, hmem, rfl⟩)
         exact Core.Good.transpose this
-    generalize (S.core :: cs).reverse.map Core.transpose = l at h hall
-    cases l with
-    | nil => simp [ofCores] at h
+    cases hl : (S.core :: cs).reverse.map Core.transpose with
+    | nil => simp at hl
     | cons a l =>
+      dsimp only at h
+      rw [hl] at h hall
       simp only [ofCores] at h
       cases h
       refine ⟨hall a List.mem_cons_self, ?_⟩
